@@ -1,5 +1,6 @@
 import AvoVerif.Props.C01
 import AvoVerif.Props.C01Tables
+import AvoVerif.Props.C01Pipeline
 #print axioms Avo.Machine.rename_preserves
 #print axioms Avo.Machine.step_rel
 #print axioms Avo.AllocCheck.checkPostFix_sound
@@ -15,3 +16,5 @@ import AvoVerif.Props.C01Tables
 #print axioms Avo.Alloc.avo_alloc_valid
 #print axioms Avo.Alloc.candidates_physical
 #print axioms Avo.Alloc.avo_alloc_valid_installed
+#print axioms Avo.Pipeline.liveness_postfix
+#print axioms Avo.Pipeline.pipeline_preserves
